@@ -290,7 +290,16 @@ func (p *Program) prov1(v ssa.Value, path string, at ssa.Instruction, depth int,
 			}
 		}
 		bound := false
-		if par := fn.Parent(); par != nil && idx >= 0 {
+		parents := []*ssa.Function{fn.Parent()}
+		if fn.Parent() == nil {
+			// a bound-method wrapper (k.method used as a value) has no lexical parent: its receiver is bound where the
+			// method value is created
+			parents = p.CG().In[fn]
+		}
+		for _, par := range parents {
+			if par == nil || idx < 0 {
+				continue
+			}
 			for _, b := range par.Blocks {
 				for _, in := range b.Instrs {
 					if mc, ok := in.(*ssa.MakeClosure); ok && mc.Fn == fn && idx < len(mc.Bindings) {
@@ -633,9 +642,19 @@ func (p *Program) callResult(out Prov, call *ssa.Call, idx int, path string, dep
 				continue
 			}
 			sub := Prov{}
+			// the value returned next to a non-nil error is dead when the caller uses the result only behind err == nil
+			var failing map[*ssa.Return]bool
+			if p.FailResultsDead(call, idx, cal) {
+				failing = map[*ssa.Return]bool{}
+				for _, ri := range p.Returns(cal) {
+					if ri.Class == RetFail {
+						failing[ri.Ret] = true
+					}
+				}
+			}
 			for _, b := range cal.Blocks {
 				ret, ok := b.Instrs[len(b.Instrs)-1].(*ssa.Return)
-				if !ok || idx >= len(ret.Results) {
+				if !ok || idx >= len(ret.Results) || failing[ret] {
 					continue
 				}
 				sub.union(p.prov(ret.Results[idx], path, ret, depth+4))
@@ -782,4 +801,72 @@ func (p *Program) objectInputs(out Prov, obj ssa.Value, at ssa.Instruction, dept
 		}
 	}
 	walk(obj)
+}
+
+// failResultsDead: every use of result idx of this call lies behind the err == nil edge of a test of the call's error
+// result, so what the callee returns together with a non-nil error never reaches a use.
+func (p *Program) FailResultsDead(call *ssa.Call, idx int, cal *ssa.Function) bool {
+	ei := errResultIndex(cal)
+	if ei < 0 || ei == idx || call.Referrers() == nil {
+		return false
+	}
+	var errEx *ssa.Extract
+	var vals []*ssa.Extract
+	for _, r := range *call.Referrers() {
+		if ex, ok := r.(*ssa.Extract); ok {
+			if ex.Index == ei {
+				errEx = ex
+			}
+			if ex.Index == idx {
+				vals = append(vals, ex)
+			}
+		}
+	}
+	if errEx == nil || len(vals) == 0 || errEx.Referrers() == nil {
+		return false
+	}
+	// ok successors of the tests of errEx
+	var okSuccs []*ssa.BasicBlock
+	for _, r := range *errEx.Referrers() {
+		bo, ok := r.(*ssa.BinOp)
+		if !ok || (bo.Op != token.EQL && bo.Op != token.NEQ) || !(isNilConst(bo.X) || isNilConst(bo.Y)) || bo.Referrers() == nil {
+			continue
+		}
+		for _, rr := range *bo.Referrers() {
+			ifi, ok := rr.(*ssa.If)
+			if !ok {
+				continue
+			}
+			succ := 0 // err == nil true
+			if bo.Op == token.NEQ {
+				succ = 1
+			}
+			if s := ifi.Block().Succs[succ]; len(s.Preds) == 1 {
+				okSuccs = append(okSuccs, s)
+			}
+		}
+	}
+	if len(okSuccs) == 0 {
+		return false
+	}
+	for _, v := range vals {
+		if v.Referrers() == nil {
+			continue
+		}
+		for _, use := range *v.Referrers() {
+			if _, dbg := use.(*ssa.DebugRef); dbg {
+				continue
+			}
+			dominated := false
+			for _, s := range okSuccs {
+				if s.Dominates(use.Block()) {
+					dominated = true
+				}
+			}
+			if !dominated {
+				return false
+			}
+		}
+	}
+	return true
 }
